@@ -98,6 +98,10 @@ pub struct CodecGraph {
 }
 
 fn payload_for(ty: u8, msid: u32, ts: u32, len: usize) -> Vec<u8> {
+    if ty == 2 && len == 4 && ts < 0x1_0000 {
+        // an Abort message: its body names a chunk stream id (the timestamp doubles as that id in the scripts below)
+        return ts.to_be_bytes().to_vec();
+    }
     let tag = (ty as u32)
         .wrapping_mul(0x01000193)
         .wrapping_add(msid.wrapping_mul(0x9E3779B1))
@@ -577,7 +581,7 @@ fn slices(mode: Mode, thorough: bool) -> Vec<Slice> {
         v.push(Slice {
             name: "large-chunks/video/multi-chunk-messages",
             types: vec![9], msids: vec![1], tss: vec![0, 40], lens: if thorough && mode != Mode::C07 || c07_extra { vec![0, 4_097, 12_000, 150_000] } else { vec![0, 12_000, 150_000] },
-            forces: vec![false], drops: vec![false], setchunks: if thorough && mode != Mode::C07 || c07_extra { vec![4_097, 5_000, 70_000] } else { vec![4_097, 70_000] }, init_chunk: None,
+            forces: vec![false], drops: vec![false], setchunks: if thorough && mode != Mode::C07 || c07_extra { vec![4_097, 5_000, 70_000, 0x7FFF_FFFF] } else { vec![4_097, 70_000, 0x7FFF_FFFF] }, init_chunk: None,
         });
     }
     if c07_extra {
@@ -749,6 +753,41 @@ pub fn run(run: &Run, mode: Mode) {
                 }
             }
         }
+        // Abort messages that name the chunk stream of the neighbouring messages (a no-op: nothing is ever in flight
+        // between two serialize calls); the named chunk stream then continues with compressed headers
+        let mut aborts = 0u64;
+        if let Ok(init) = init_state(mode, &sl, &g) {
+            for (ty, csid) in [(9u8, 4u32), (8, 5), (18, 3), (20, 6), (3, 2)] {
+                for abort_msid in [0u32, 1] {
+                    let script: Vec<Act> = vec![
+                        Act::Msg { ty, msid: 1, ts: 100, len: 3, force: false, drop: false, deliver: true },
+                        Act::Msg { ty, msid: 1, ts: 110, len: 3, force: false, drop: false, deliver: true },
+                        Act::Msg { ty: 2, msid: abort_msid, ts: csid, len: 4, force: false, drop: false, deliver: true },
+                        Act::Msg { ty, msid: 1, ts: 120, len: 3, force: false, drop: false, deliver: true },
+                        Act::Msg { ty, msid: 1, ts: 130, len: 3, force: false, drop: false, deliver: true },
+                        Act::Msg { ty, msid: 1, ts: 140, len: 5, force: false, drop: false, deliver: true },
+                    ];
+                    let mut cur = init.clone();
+                    let mut done: Vec<Value> = Vec::new();
+                    for a in script.iter() {
+                        let o = g.step(&cur, a);
+                        total_impl += o.impl_steps;
+                        total_trans += 1;
+                        done.push(g.describe(a));
+                        if let Some((sig, d)) = o.viol.into_iter().next() {
+                            run.violation(&format!("{}/around-an-abort-message", sig), &d, json!({"slice": "abort-messages-naming-a-chunk-stream-in-use", "init_chunk_size": 2, "ops": done}));
+                            break;
+                        }
+                        cur = match o.succ.into_iter().next() {
+                            Some(x) => x,
+                            None => break,
+                        };
+                    }
+                    aborts += 1;
+                }
+            }
+        }
+        run.count("abort_message_scripts", aborts);
         run.count("message_stream_id_scripts", swept_ids);
         run.count("type_id_scripts", swept);
     }
